@@ -11,7 +11,8 @@ S(x) == x
 EditU == << <<"clearName">>, <<"setName", <<78,50>>>>, <<"setNs", <<104,47,110,115>>>>, <<"setVer", <<>>>>,
             <<"setSub", <<46,46,47,120>>>>, <<"insQ", <<101>>, <<>>>>, <<"insQ", <<90>>, <<49>>>>,
             <<"insQ", CHECKSUM, <<66,58,48,48,44,97,58,70,70>>>>, <<"insQ", CHECKSUM, <<122,122>>>>,
-            <<"insQ", CHECKSUM, <<>>>>, <<"remQ", <<107>>>>, <<"insQ", <<33>>, <<120>>>> >>
+            <<"insQ", CHECKSUM, <<>>>>, <<"remQ", <<107>>>>, <<"insQ", <<33>>, <<120>>>>,
+            <<"insQ", CHECKSUM, <<97,58,48,44,98,58,49>>>> >>                  \* "a:0,b:1": two odd-length hashes
 RECURSIVE Subseqs(_, _)          \* index-increasing subsequences of 1..n with at most e elements
 Subseqs(from, e) == IF e = 0 \/ from > Len(EditU) THEN {<<>>}
                     ELSE Subseqs(from + 1, e) \cup {<<EditU[from]>> \o x : x \in Subseqs(from + 1, e - 1)}
